@@ -39,13 +39,17 @@ class Gw:
         self.loop = loop
         self.sent = []  # (time, bytes, task)
         self.on_send = None
+        self.ack_latency = 0.0  # time the link layer needs until the frame is acknowledged (send_data returns)
 
     async def send_data(self, data):
         rec = (self.loop.time(), bytes(data), asyncio.current_task())
-        self.sent.append(rec)
-        if self.on_send is not None and self.on_send(rec) == "linkfail":
+        self.sent.append(rec)  # the frame is on the wire from here on, whatever happens to the caller
+        verdict = self.on_send(rec) if self.on_send is not None else None
+        if verdict == "linkfail":
             await asyncio.sleep(0.5)  # the link layer gives up after its own retries
             raise LinkDown("link down")
+        if self.ack_latency:
+            await asyncio.sleep(self.ack_latency)
 
     def close(self):
         pass
@@ -101,10 +105,12 @@ class Calls(Harness):
         cancel_k = cancel_at = None
         if cancel:
             cancel_k = ctx.choice("cancel_k", n)
-            cancel_at = (0.0, 0.02, 0.2, 5.0)[ctx.choice("cancel_at", 4)]
+            cancel_at = (0.0, 0.004, 0.02, 0.2, 5.0)[ctx.choice("cancel_at", 5)]  # 0.004: inside the link layer's send (frame written, not yet acknowledged)
 
         async def main(loop):
             gw = Gw(loop)
+            if cancel:
+                gw.ack_latency = 0.008
             ez = make_ezsp(version, gw)
             ph = ez._protocol
             ph._seq = seq0
@@ -232,7 +238,7 @@ class Calls(Harness):
                         ctx.label("late-reply")
                     ctx.check(kind == "TimeoutError", "no reply within the command timeout but the call ended with %s" % kind,
                               "completed-without-reply" if kind == "ok" else "no-timeout")
-                    ctx.check(abs(tend - (r["t"] + CMD_TIMEOUT)) < EPS, "timeout raised at +%.3f s" % (tend - r["t"]), "timeout-instant")
+                    ctx.check(abs(tend - (r["t"] + gw.ack_latency + CMD_TIMEOUT)) < EPS, "timeout raised at +%.3f s" % (tend - r["t"]), "timeout-instant")  # the wait starts once the link layer has taken the frame
                     r["end"] = tend
                 else:
                     ctx.label("returned")
@@ -342,8 +348,69 @@ class Callbacks(Harness):
         vloop.run(main)
 
 
+class LongRun(Harness):
+    """One command is never answered (its pending entry goes stale); then more than 256 further commands: every one of
+    them completes with its own reply and the sequence numbers keep advancing by one, across the full wrap."""
+
+    name = "c06_longrun"
+    must_reach = ("wrapped-past-stale",)
+    functions = ("ProtocolHandler.command", "ProtocolHandler.__call__")
+
+    def run(self, ctx, versions=(4, 8), count=260):
+        version = versions[ctx.choice("version", len(versions))]
+        seq0 = (0, 200)[ctx.choice("seq0", 2)]
+        stale_kind = ("never", "late", "linkfail")[ctx.choice("stale", 3)]
+
+        async def main(loop):
+            gw = Gw(loop)
+            ez = make_ezsp(version, gw)
+            ph = ez._protocol
+            ph._seq = seq0
+            n = [0]
+            seqs = []
+
+            def on_send(rec):
+                ts, data, task = rec
+                fmt, seq, fid, payload = E.parse_any(data)
+                i = n[0]
+                n[0] += 1
+                seqs.append(seq)
+                if i == 0:
+                    if stale_kind == "linkfail":
+                        return "linkfail"
+                    if stale_kind == "late":
+                        fid_, _tx, rx = ph.COMMANDS["getConfigurationValue"]
+                        loop.call_later(CMD_TIMEOUT + 0.5, ez.frame_received, bytes(E.header(version, seq, fid_) + E.enc_schema(rx, [0, 0x7777])))
+                    return None
+                fid_, _tx, rx = ph.COMMANDS["getConfigurationValue"]
+                loop.call_later(0.01, ez.frame_received, bytes(E.header(version, seq, fid_) + E.enc_schema(rx, [0, 0x1000 + i])))
+
+            gw.on_send = on_send
+            import bellows.types as t
+
+            async def one():
+                try:
+                    return ("ok", await ez.getConfigurationValue(configId=t.EzspConfigId.CONFIG_STACK_PROFILE))
+                except Exception as e:
+                    return (type(e).__name__, None)
+
+            r0 = await one()
+            ctx.check(r0[0] != "ok", "the unanswered command returned normally", "completed-without-reply")
+            for i in range(1, count):
+                r = await one()
+                ctx.check(r[0] == "ok", "command %d after a stale request ended with %s (sequence numbers so far %r...)" % (i, r[0], seqs[-4:]), "longrun-outcome")
+                ctx.check([int(x) for x in r[1]] == [0, 0x1000 + i], "command %d received %r instead of its own reply" % (i, r[1]), "longrun-payload")
+            ctx.label("wrapped-past-stale")
+            for i, sq in enumerate(seqs):
+                ctx.check(sq == (seq0 + i) % 256, "request %d carries sequence number %d, expected %d" % (i, sq, (seq0 + i) % 256), "seq-advance")
+            ctx.observe(version, seq0, stale_kind, len(seqs))
+
+        vloop.run(main)
+
+
 CALLS = Calls()
 CALLBACKS = Callbacks()
+LONGRUN = LongRun()
 
 
 def main(tier):
@@ -359,6 +426,7 @@ def main(tier):
         c.run("checks.c06:CALLS", {"n": 3, "versions": [8], "seqs": [254]})
         c.run("checks.c06:CALLS", {"n": 3, "versions": [4], "seqs": [255], "behaviours": "basic", "cancel": True})
         c.run("checks.c06:CALLBACKS", {"ops": 5})
+        c.run("checks.c06:LONGRUN", {"versions": [4, 8]})
         c.out_of_bounds += ["more than 3 concurrent callers", "start sequence numbers other than 0, 254, 255", "protocol versions other than 4, 5, 8, 14"]
     else:
         c.run("checks.c06:CALLS", {"n": 2, "versions": [4, 5, 8, 13, 14], "seqs": [0, 1, 254, 255]})
@@ -366,6 +434,7 @@ def main(tier):
         c.run("checks.c06:CALLS", {"n": 4, "versions": [8], "seqs": [253], "behaviours": "basic"})
         c.run("checks.c06:CALLS", {"n": 3, "versions": [8], "seqs": [255], "behaviours": "basic", "cancel": True})
         c.run("checks.c06:CALLBACKS", {"ops": 7})
+        c.run("checks.c06:LONGRUN", {"versions": [4, 5, 8, 14], "count": 520})
         c.out_of_bounds += ["more than 4 concurrent callers", "start sequence numbers outside {0, 1, 253, 254, 255}"]
     return c.finish()
 
